@@ -5,6 +5,8 @@ import (
 	"encoding/json"
 	"flag"
 	"fmt"
+	"io"
+	"log"
 	"os"
 	"runtime"
 	"runtime/debug"
@@ -56,7 +58,8 @@ func execCase(c *Case) (v *Verdict) {
 
 func workerMain(inflight string) {
 	installLoader()
-	debug.SetMaxStack(256 << 20)
+	log.SetOutput(io.Discard) // spec logs resolution errors through the std logger; they are observed as errors
+	debug.SetMaxStack(512 << 20)
 	if err := checkGetterDrivers(); err != nil {
 		fmt.Fprintln(os.Stderr, "simh worker:", err)
 		os.Exit(2)
@@ -153,6 +156,7 @@ func main() {
 		prof := fs.String("cpuprofile", "", "")
 		fs.Parse(os.Args[2:])
 		installLoader()
+		log.SetOutput(io.Discard)
 		if *prof != "" {
 			f, _ := os.Create(*prof)
 			pprof.StartCPUProfile(f)
